@@ -593,13 +593,19 @@ impl Prop for C08 {
         let secs: u64 = std::env::var("VERIF_C08_WATCHDOG_S").ok().and_then(|v| v.parse().ok()).unwrap_or(10);
         // a change that makes a whole class of inputs hang would cost (inputs x watchdog) of wall time: once 64 inputs have
         // run into the watchdog the verdict is settled (each is reported), the remaining inputs are counted as skipped
-        static HANGS: std::sync::atomic::AtomicUsize = std::sync::atomic::AtomicUsize::new(0);
-        if HANGS.load(std::sync::atomic::Ordering::SeqCst) >= 64 {
-            return CaseResult::skip("not-run:64-inputs-already-ran-into-the-watchdog");
+        // (inputs that did hang are always run again: their verdict is confirmed by re-execution)
+        static HUNG: std::sync::OnceLock<std::sync::Mutex<std::collections::HashSet<u64>>> = std::sync::OnceLock::new();
+        let hung = HUNG.get_or_init(|| std::sync::Mutex::new(std::collections::HashSet::new()));
+        let me = crate::common::fnv(&format!("{}|{}", c.backend, c.text));
+        {
+            let h = hung.lock().unwrap();
+            if h.len() >= 64 && !h.contains(&me) {
+                return CaseResult::skip("not-run:64-inputs-already-ran-into-the-watchdog");
+            }
         }
         let v = run_isolated(&c.text, &c.backend, Duration::from_secs(secs));
         if matches!(v, Verdict::Hang) {
-            HANGS.fetch_add(1, std::sync::atomic::Ordering::SeqCst);
+            hung.lock().unwrap().insert(me);
         }
         let short = |t: &str| -> String {
             if t.len() > 600 {
